@@ -261,6 +261,32 @@ func (g *Gate) Release(sel func(args []interface{}) bool) bool {
 	return false
 }
 
+// ReleaseG lets the goroutine with id g continue, if it is parked at this gate.
+func (g *Gate) ReleaseG(id int64) bool {
+	g.mu.Lock()
+	defer g.mu.Unlock()
+	for i, p := range g.parked {
+		if p.g == id {
+			g.parked = append(g.parked[:i], g.parked[i+1:]...)
+			close(p.ch)
+			return true
+		}
+	}
+	return false
+}
+
+// ParkedG reports whether goroutine id is parked at this gate.
+func (g *Gate) ParkedG(id int64) bool {
+	g.mu.Lock()
+	defer g.mu.Unlock()
+	for _, p := range g.parked {
+		if p.g == id {
+			return true
+		}
+	}
+	return false
+}
+
 // Disarm stops parking at this gate and releases everything parked.
 func (g *Gate) Disarm() {
 	g.mu.Lock()
